@@ -193,6 +193,9 @@ func addStringIntrinsics(m map[string]intrinsicFn) {
 		// space-free tokens: recognise (str.++ t1 " " t2 ...) is not attempted; instead
 		// the contract is: result tokens are fresh, space-free, non-empty, and joining them
 		// with single separators of whitespace yields the input. Bounded to <= maxFields tokens.
+		if toks, ok := fr.r.structuredFields(a[0].(*sym)); ok {
+			return toks
+		}
 		return fr.r.symFields(a[0].(*sym))
 	}
 	m["strings.ReplaceAll"] = func(fr *frame, a []value) value {
@@ -204,6 +207,20 @@ func addStringIntrinsics(m map[string]intrinsicFn) {
 		}
 		if yo && y == "" {
 			panic(unsupported{"ReplaceAll with empty pattern on symbolic"})
+		}
+		// declared tokens contain no parentheses / whitespace: replacing those is the identity on them
+		if xs, ok := a[0].(*sym); ok && yo && zo && (y == "(" || y == ")" || y == " ") {
+			if parts, ok := fr.r.tokenParts(xs.t); ok {
+				var out []value
+				for _, p := range parts {
+					if p.lit {
+						out = append(out, strings.ReplaceAll(p.s, y, z))
+					} else {
+						out = append(out, strSym(p.s))
+					}
+				}
+				return catStr(out)
+			}
 		}
 		return strSym(sx("str.replace_all", strTerm(a[0]), strTerm(a[1]), strTerm(a[2])))
 	}
@@ -545,4 +562,82 @@ func (r *run) symFields(s *sym) value {
 		panic(pathEnd{"fields infeasible"})
 	}
 	return toks
+}
+
+
+// tokenParts splits a term into literals and declared token variables (nil,false if anything else occurs).
+func (r *run) tokenParts(t string) ([]strPart, bool) {
+	e := parseSexp(t)
+	if e == nil {
+		return nil, false
+	}
+	var parts []strPart
+	var walk func(x *sexp) bool
+	walk = func(x *sexp) bool {
+		if x.list == nil {
+			if len(x.atom) >= 2 && x.atom[0] == '"' {
+				parts = append(parts, strPart{true, parseSmtStr(x.atom)})
+				return true
+			}
+			if r.tokens[x.atom] {
+				parts = append(parts, strPart{false, x.atom})
+				return true
+			}
+			return false
+		}
+		if len(x.list) > 0 && x.list[0].atom == "str.++" {
+			for _, c := range x.list[1:] {
+				if !walk(c) {
+					return false
+				}
+			}
+			return true
+		}
+		return false
+	}
+	if !walk(e) {
+		return nil, false
+	}
+	return parts, true
+}
+
+// structuredFields implements strings.Fields on a concatenation of declared tokens and literals.
+func (r *run) structuredFields(s *sym) (value, bool) {
+	parts, ok := r.tokenParts(s.t)
+	if !ok {
+		return nil, false
+	}
+	var fields []value
+	var cur []value
+	flush := func() {
+		if len(cur) > 0 {
+			fields = append(fields, catStr(cur))
+			cur = nil
+		}
+	}
+	for _, p := range parts {
+		if !p.lit {
+			cur = append(cur, strSym(p.s))
+			continue
+		}
+		// split the literal at whitespace
+		word := ""
+		for i := 0; i < len(p.s); i++ {
+			c := p.s[i]
+			if c == ' ' || (c >= 9 && c <= 13) {
+				if word != "" {
+					cur = append(cur, word)
+					word = ""
+				}
+				flush()
+			} else {
+				word += string(c)
+			}
+		}
+		if word != "" {
+			cur = append(cur, word)
+		}
+	}
+	flush()
+	return fields, true
 }
